@@ -129,12 +129,12 @@ def mutate(rng, b):
 def build(tier, seed):
     thorough = tier == "thorough"
     cases = []
-    nwf = 600 if thorough else 40
+    nwf = 4000 if thorough else 40
     for i in range(nwf):
         cases.append({"id": f"wf-{i}", "kind": "wf", "n": 4000 if thorough else 1500, "i": i})
     for hi in range(0, 256, 16):
         cases.append({"id": f"short-{hi:02x}", "kind": "short", "lo": hi, "hi": hi + 16})
-    nrnd = 400 if thorough else 32
+    nrnd = 3000 if thorough else 32
     for i in range(nrnd):
         cases.append({"id": f"rand-{i}", "kind": "rand", "n": 6000 if thorough else 1500, "i": i})
     for i in range(nrnd):
